@@ -26,9 +26,12 @@ build() { # $1 = output name, rest = extra go build flags
   mv -f "$tmp" "bin/$out"
 }
 
+# the plain driver is a static pure-Go binary (no libc threads: child processes run under an
+# address-space limit); the race detector needs cgo
+export CGO_ENABLED=0
 if [ "${1:-}" = "build" ]; then
   build vcheck || exit 2
-  build vcheck-race -race || exit 2
+  CGO_ENABLED=1 build vcheck-race -race || exit 2
   exit 0
 fi
 
@@ -36,7 +39,7 @@ ID="${1:?property id}"
 MODE="${2:-quick}"
 build vcheck || exit 2
 ALT=""
-case "$RACE_PROPS" in *" $ID "*) build vcheck-race -race || exit 2; ALT="$ROOT/bin/vcheck-race";; esac
+case "$RACE_PROPS" in *" $ID "*) CGO_ENABLED=1 build vcheck-race -race || exit 2; ALT="$ROOT/bin/vcheck-race";; esac
 
 case "$MODE" in
   quick|thorough)
